@@ -73,6 +73,7 @@ func (e *Engine) verifyFunction(fn *ssa.Function, con *Contract) {
 
 func (e *Engine) verifyCase(fn *ssa.Function, con *Contract, ci int, sc *SpecCase) {
 	key := funcKey(fn)
+	e.curCase = ci + 1
 	st := &State{heap: map[*Obj]Value{}, ghost: map[string]Value{}, inLoop: map[int]bool{}, vars: map[string]Value{}}
 	fr := &Frame{fn: fn, env: map[ssa.Value]Value{}, con: con, top: true, visits: map[int]int{}, bind: map[string]Value{}}
 	if ci > 0 {
@@ -132,6 +133,7 @@ func (e *Engine) verifyCase(fn *ssa.Function, con *Contract, ci int, sc *SpecCas
 	for _, o := range outs {
 		e.pathCount++
 		e.checkPost(fr, con, ci, sc, o, old, key)
+		e.addObl(o.st, fmt.Sprintf("%s/cover.path%s#0", key, fr.callPath), "cover", nil, TFalse, "COVER: some return path is feasible", "")
 	}
 }
 
